@@ -396,6 +396,7 @@ pub fn run(r: &mut Report, ctx: &Ctx) {
             },
         );
     }
+    crate::seq::section(r, ctx, "stream");
 }
 
 fn rs<V: Variant>(sc: &Script, stream: Stream) -> Result<(), String> {
